@@ -22,7 +22,8 @@
    covered by the correspondence and the oracle of harness/c01.py only. *)
 From Coq Require Import NArith ZArith List Bool.
 From XV Require Import Base.Str Base.Eqb Base.PyInt Spec.XmlNs Model.Bind Model.WriterBridge Spec.Fits Model.RoundtripCorr
-  Proofs.RoundtripParse Proofs.RoundtripMain Proofs.RoundtripWitness Proofs.RoundtripExamples.
+  Proofs.RoundtripParse Proofs.RoundtripMain Proofs.RoundtripWitness Proofs.RoundtripExamples
+  Model.Writer Proofs.RoundtripGen Proofs.RoundtripText.
 From XV Require Model.EventGen Model.Parser Model.ParserCorr.
 Import ListNotations.
 
@@ -55,6 +56,57 @@ Theorem C01_roundtrip_pump_S3 : forall cfg c u ok ign n cls o,
     /\ Parser.parse cfg c u (Some cls) (pump (itree_of_events (map (of_wevent c) evs))) = Parser.Ok o [].
 Proof. intros. eapply roundtrip_pump; eassumption. Qed.
 Print Assumptions C01_roundtrip_pump_S3.
+
+(* ---- the text level: composition with property C03 (both writers) ---------------------------
+   `pump_doc m t tail` = the events an XML reader delivers for the infoset tree `t` (ElementTree
+   view: text before the first child, tails; any prefix map `m` in scope); `strip_indent t'` removes
+   the white-space-only text nodes of elements that have child elements (what SerializerConfig.indent
+   adds); `wf_doc`: no element carries two attributes with the same expanded name.
+   Every document tree that says the expected tree, also after indentation, is parsed back: *)
+Theorem C01_document_parses_S3 : forall cfg c u ok ign n cls o t' m k,
+  conv_roundtrips c u ok -> nodefault_free cfg = true ->
+  wf_model u cls = true -> fits c u ok py_isspace n cls o = true ->
+  wf_doc t' = true -> doc_says (eobj c u ign n None o) (strip_indent t') = true ->
+  Parser.parse_n k cfg c u (Some cls) (pump_doc m t' None) = Parser.Ok o [].
+Proof. intros. eapply document_parses; try eassumption. reflexivity. Qed.
+Print Assumptions C01_document_parses_S3.
+
+(* XmlEventWriter: inside C03's writer_guard (user prefix map, names, XML 1.0 text) the call
+   succeeds, the printed document resolves to an infoset tree t, and t - or t with any indentation
+   white space added - is read and parsed back to the instance, by whatever handler delivers the
+   reader events of the tree (C08: both handlers do, up to lookup-equivalent prefix maps, which
+   the statement quantifies over) *)
+Theorem C01_roundtrip_native_S3 : forall cfg c u ok ign n cls o wcfg user,
+  conv_roundtrips c u ok -> nodefault_free cfg = true ->
+  wf_model u cls = true -> fits c u ok py_isspace n cls o = true ->
+  cfg_schema_location wcfg = None -> cfg_no_ns_schema_location wcfg = None ->
+  exists evs,
+    EventGen.generate ign c u o = EventGen.Ok evs
+    /\ (writer_guard wcfg user (map (of_wevent c) evs) = true ->
+        exists d t,
+          run_native wcfg user (map (of_wevent c) evs) = inl d /\ resolve d = Some t
+          /\ forall t' m k,
+               wf_doc t' = true -> strip_indent t' = strip_indent t ->
+               Parser.parse_n k cfg c u (Some cls) (pump_doc m t' None) = Parser.Ok o []).
+Proof. intros. eapply roundtrip_native; eassumption. Qed.
+Print Assumptions C01_roundtrip_native_S3.
+
+(* LxmlEventWriter: the same for the tree the lxml sink builds *)
+Theorem C01_roundtrip_lxml_S3 : forall cfg c u ok ign n cls o wcfg user,
+  conv_roundtrips c u ok -> nodefault_free cfg = true ->
+  wf_model u cls = true -> fits c u ok py_isspace n cls o = true ->
+  cfg_schema_location wcfg = None -> cfg_no_ns_schema_location wcfg = None ->
+  exists evs,
+    EventGen.generate ign c u o = EventGen.Ok evs
+    /\ (writer_guard wcfg user (map (of_wevent c) evs) = true ->
+        lxml_domain wcfg user (map (of_wevent c) evs) = true ->
+        exists t,
+          run_lxml wcfg user (map (of_wevent c) evs) = inl t
+          /\ forall t' m k,
+               wf_doc t' = true -> strip_indent t' = strip_indent t ->
+               Parser.parse_n k cfg c u (Some cls) (pump_doc m t' None) = Parser.Ok o []).
+Proof. intros. eapply roundtrip_lxml; eassumption. Qed.
+Print Assumptions C01_roundtrip_lxml_S3.
 
 (* ---- the hypotheses are inhabited --------------------------------------------------------- *)
 (* the converter law: property C05's models of the str / int / bool converters (C05_int_roundtrip,
